@@ -62,16 +62,28 @@ def unit_data(cls, k, seed):
             second = trow(2 * k + 1, seed)
         return np.stack([first, second])
     if cls == "H.TangentVector":
+        if k % 4 == 3:
+            # a unit that is ALREADY tangent (basepoint at the origin, purely spatial vector): a composite then mixes
+            # units whose stored vector needs the projection with units that do not
+            return np.stack([lattice.LAMBDAS[k % 3] * np.array([1.0, 0.0, 0.0]),
+                             np.concatenate([[0.0], lattice.generic_dir(N_DIM, 300 + k, seed)]) * (1.0 + 0.25 * (k % 3))])
         return np.stack([trow(k, seed), np.concatenate([[0.2], lattice.generic_dir(N_DIM, 300 + k, seed)]) * (1.0 + 0.25 * (k % 3))])
     if cls == "P.Polygon":
         return np.stack([prow(3 * k + i) for i in range(3)])
+    if cls == "P.Polygon/int":
+        # integer-valued polygons (kept in an integer array by the library, pinned by the suite); units handed in
+        # later (setitem / stack / combine) are non-integral floats, so the assignment has to convert
+        return np.stack([np.round(4 * prow(3 * k + i)) + np.array([3.0, 0.0, 0.0]) for i in range(3)])
     raise ValueError(cls)
 
 
 def fresh_data(cls, shape, start, seed):
     shape = tuple(shape)
     N = S.size(shape)
-    u = np.array([unit_data(cls, start + k, seed) for k in range(N)])
+    src = "P.Polygon" if (cls == "P.Polygon/int" and start > 0) else cls      # later units of the int class are floats
+    u = np.array([unit_data(src, start + k, seed) for k in range(N)])
+    if cls == "P.Polygon/int" and start == 0:
+        u = u.astype(np.int64)
     return u.reshape(shape + u.shape[1:])
 
 
@@ -113,7 +125,7 @@ def make_T(cls, which):
 
 
 def oracle_aux(cls, data):
-    if cls in ("H.Polygon", "P.Polygon"):
+    if cls in ("H.Polygon", "P.Polygon", "P.Polygon/int"):
         return edges_of(data)
     if cls.startswith("H.Segment"):
         return ideal_endpoints(data)
@@ -411,14 +423,14 @@ def case_hist(hist):
         elif name == "apply-composite":
             T, R = make_T(cls, "pair")
             rs = S.broadcast_shape(mshape, (2,))
-            new = np.zeros(rs + ush, dtype=model.dtype)
+            new = np.zeros(rs + ush, dtype=np.result_type(model.dtype, R.dtype))
             for idx, i, j in S.index_map("elementwise", mshape, (2,)):
                 new[idx] = model[i] @ R[j]
             obj, model = T @ obj, new
         elif name == "apply-pairwise":
             # composite transformation (2,) applied pairwise: object axes first, then the transformation's
             T, R = make_T(cls, "pair")
-            new = np.zeros(tuple(mshape) + (2,) + ush, dtype=model.dtype)
+            new = np.zeros(tuple(mshape) + (2,) + ush, dtype=np.result_type(model.dtype, R.dtype))
             for idx, i, j in S.index_map("pairwise", mshape, (2,)):
                 new[idx] = model[i] @ R[j]
             obj, model = T.apply(obj, "pairwise"), new
@@ -435,8 +447,15 @@ def case_hist(hist):
             unit = make(cls, arr)
             retained.append(("assigned-unit", unit, arr.copy()))
             obj[op[1]] = unit
-            model = model.copy()
-            model[op[1]] = arr
+            narrow = model.copy()
+            narrow[op[1]] = arr                      # numpy semantics: converted to the dtype of the existing array
+            if narrow.dtype != np.result_type(model.dtype, arr.dtype):
+                # the property does not say whether assignment converts the new unit to the object's dtype or widens
+                # the object: either is accepted for the primary data (the derived data must follow whichever it is)
+                wide = model.astype(np.result_type(model.dtype, arr.dtype))
+                wide[op[1]] = arr
+                narrow = wide if (np.shape(obj.proj_data) == wide.shape and rows_err(obj.proj_data, wide) <= TOL) else narrow
+            model = narrow
         elif name in ("stack", "combine"):
             arr = fresh_data(cls, mshape, nxt, seed)
             nxt += S.size(mshape)
@@ -444,12 +463,13 @@ def case_hist(hist):
             other = make(cls, arr)
             if cx:
                 other = other.astype(np.complex128)
-            retained.append(("argument-of-%s" % name, other, arr.astype(model.dtype)))
+            common = np.result_type(model.dtype, arr.dtype)       # stacking promotes like np.stack, it never narrows
+            retained.append(("argument-of-%s" % name, other, arr.astype(common)))
             if name == "stack":
-                obj, model = C([obj, other]), np.stack([model, arr.astype(model.dtype)])
+                obj, model = C([obj, other]), np.stack([model.astype(common), arr.astype(common)])
             else:
                 obj = C.combine([obj, other])
-                model = np.concatenate([model.reshape((-1,) + ush), arr.astype(model.dtype).reshape((-1,) + ush)])
+                model = np.concatenate([model.astype(common).reshape((-1,) + ush), arr.astype(common).reshape((-1,) + ush)])
         elif name == "astype":
             obj, model, cx = obj.astype(np.complex128), model.astype(np.complex128), True
         elif name == "queries":
@@ -500,7 +520,7 @@ def case_hist(hist):
             nextops += [["stack"], ["combine"]]
         if not cx:
             nextops.append(["astype"])
-        if "/ideal" not in cls:
+        if "/" not in cls:
             nextops.append(["queries"])          # queries on ideal endpoints (hyperboloid coordinates of null vectors) are C01/C14's
     raw = np.round(np.asarray(obj.proj_data).astype(complex).flatten(), 5) + (0.0 + 0.0j) if not v else None
     # the queries may leave hidden state behind (memoised answers), which no observable summary shows: a state
@@ -526,6 +546,7 @@ def run(ctx):
     ctx.tolerances["projective rows"] = "sine of the angle between rows <= 1e-8 (coordinates <= ~10, measured errors <= 1e-13; stale data differs by >= 1e-2)"
     roots = [[{"cls": c, "shape": s, "seed": ctx.seed}] for c in CLASSES for s in ([], [2], [2, 2])]
     roots += [[{"cls": "H.Segment/ideal", "shape": s, "seed": ctx.seed}] for s in ([], [3])]
+    roots += [[{"cls": "P.Polygon/int", "shape": s, "seed": ctx.seed}] for s in ([2], [2, 2])]
     ctx.bfs("object-histories", "checks.c11:case_hist", roots, depth=3 if q else 4, chunk=24,
             domains={"classes": CLASSES, "initial shapes": [[], [2], [2, 2]],
                      "extra class": "H.Segment/ideal = segments whose first endpoint is ideal (generic angle) and second interior or ideal",
